@@ -321,6 +321,13 @@ static long eval_const_expr(Token **rest, Token *tok) {
   for (Token *t = expr; t->kind != TK_EOF; t = t->next) {
     if (t->kind != TK_NUM || !is_integer(t->ty) || t->ty->size == 8)
       continue;
+    // u'x' and U'x' have unsigned types (char16_t, char32_t).
+    if (!isdigit(t->loc[0]) && t->ty->is_unsigned) {
+      t->val = (t->ty->size == 2) ? (uint16_t)t->val : (uint32_t)t->val;
+      t->ty = ty_ulong;
+      continue;
+    }
+
     bool has_u = isdigit(t->loc[0]) &&
                  (memchr(t->loc, 'u', t->len) || memchr(t->loc, 'U', t->len));
     t->ty = has_u ? ty_ulong : ty_long;
